@@ -647,10 +647,12 @@ pub fn merkle(args: &[String]) {
                     }
                     _ => {
                         let b = st[1].as_i64().unwrap();
+                        let h = st[2].as_i64().unwrap();
                         let (rl, wl) = (rep.len(), w.len());
                         let block = if b >= 0 { Some(RequestBlock { index: b as u64, nodes: rep.missing_nodes(b as u64).unwrap_or(0) }) } else { None };
+                        let hash = if h >= 0 { Some(RequestBlock { index: h as u64, nodes: rep.missing_nodes_tree(h as u64).unwrap_or(0) }) } else { None };
                         let up = if rl < wl { Some(RequestUpgrade { start: rl, length: wl - rl }) } else { None };
-                        match w.create_proof(block, None, None, up) {
+                        match w.create_proof(block, hash, None, up) {
                             Ok(Some(p)) => {
                                 let ret = rep.apply_proof(&p);
                                 if ret["applied"] != true {
@@ -664,23 +666,28 @@ pub fn merkle(args: &[String]) {
             }
             // the request of this line
             let b = j["b"].as_i64().unwrap();
+            let h = j["h"].as_i64().unwrap();
             let (rl, wl) = (rep.len(), w.len());
             let mut shape_diff = None;
             if rl != j["rl"].as_u64().unwrap() {
                 local.push(json!({"what":"replica length after the history","got":rl,"spec":j["rl"]}));
             }
-            let miss = if b >= 0 { rep.missing_nodes(b as u64).unwrap_or(u64::MAX) } else { 0 };
-            if b >= 0 && (b as u64) < rl && miss != j["missing"].as_u64().unwrap() {
-                local.push(json!({"what":"missing_nodes","b":b,"got":miss,"spec":j["missing"]}));
+            let miss = if b >= 0 { rep.missing_nodes(b as u64).unwrap_or(u64::MAX) }
+                       else if h >= 0 { rep.missing_nodes_tree(h as u64).unwrap_or(u64::MAX) } else { 0 };
+            let inside = (b >= 0 && (b as u64) < rl) || (h >= 0 && flat_tree::right_span(h as u64) < 2 * rl);
+            if inside && miss != j["missing"].as_u64().unwrap() {
+                local.push(json!({"what":"missing_nodes","b":b,"h":h,"got":miss,"spec":j["missing"]}));
             }
             let block = if b >= 0 { Some(RequestBlock { index: b as u64, nodes: miss }) } else { None };
+            let hash = if h >= 0 { Some(RequestBlock { index: h as u64, nodes: miss }) } else { None };
             let up = if rl < wl { Some(RequestUpgrade { start: rl, length: wl - rl }) } else { None };
-            if let Ok(Some(p)) = w.create_proof(block, None, None, up) {
+            if let Ok(Some(p)) = w.create_proof(block, hash, None, up) {
                 let idx = |v: &Vec<Node>| v.iter().map(|n| n.index()).collect::<Vec<u64>>();
-                let got_b = p.block.as_ref().map(|x| idx(&x.nodes)).unwrap_or_default();
+                let got_b = p.block.as_ref().map(|x| idx(&x.nodes)).or_else(|| p.hash.as_ref().map(|x| idx(&x.nodes))).unwrap_or_default();
                 let got_u = p.upgrade.as_ref().map(|x| idx(&x.nodes)).unwrap_or_default();
                 let got_x = p.upgrade.as_ref().map(|x| idx(&x.additional_nodes)).unwrap_or_default();
-                let spec_b: Vec<u64> = j["honest"]["block"]["nodes"].as_array().unwrap().iter().map(|n| n[0].as_u64().unwrap()).collect();
+                let sect = if j["honest"]["hashash"] == true { &j["honest"]["hash"]["nodes"] } else { &j["honest"]["block"]["nodes"] };
+                let spec_b: Vec<u64> = sect.as_array().unwrap().iter().map(|n| n[0].as_u64().unwrap()).collect();
                 let spec_u: Vec<u64> = j["honest"]["up"]["nodes"].as_array().unwrap().iter().map(|n| n[0].as_u64().unwrap()).collect();
                 if got_b != spec_b || got_u != spec_u || !got_x.is_empty() {
                     shape_diff = Some(json!({"hist":j["hist"],"b":b,"crate":{"block":got_b,"up":got_u,"extra":got_x},"spec":{"block":spec_b,"up":spec_u}}));
@@ -725,7 +732,10 @@ pub fn merkle(args: &[String]) {
                     Some(DataUpgrade { start: pj["up"]["start"].as_u64().unwrap(), length: pj["up"]["length"].as_u64().unwrap(),
                         nodes: mk_nodes(&pj["up"]["nodes"]), additional_nodes: vec![], signature })
                 } else { None };
-                let proof = hypercore::Proof { fork: pj["fork"].as_u64().unwrap(), block, hash: None, seek: None, upgrade };
+                let hash = if pj["hashash"] == true {
+                    Some(DataHash { index: pj["hash"]["i"].as_u64().unwrap(), nodes: mk_nodes(&pj["hash"]["nodes"]) })
+                } else { None };
+                let proof = hypercore::Proof { fork: pj["fork"].as_u64().unwrap(), block, hash, seek: None, upgrade };
                 let ret = rep.apply_proof(&proof);
                 let accepted = ret["t"] == "ok" && ret["applied"] == true;
                 n += 1;
